@@ -21,7 +21,7 @@ import swizzle as gen_swizzle  # noqa: E402
 import ctors as gen_ctors  # noqa: E402
 
 PID = 'C17'
-ROWS_PER_SHARD = {'function': 500, 'operator': 360, 'ctor': 260}
+ROWS_PER_SHARD = {'function': 500, 'function-basic': 500, 'operator': 360, 'ctor': 260}
 MAX_LEAVES = 48  # per unit: beyond this many individually failing rows the rest of the unit is reported as one group
 
 
@@ -250,6 +250,7 @@ def SPEC(tier):
         make_stage(pool, 'ctor', 'ctor', 'default', gxx, [], gen_ctors.PRELUDE['default']),
         make_stage(pool, 'ctor-simd', 'ctor', 'simd', gxx, simd, gen_ctors.PRELUDE['simd']),
         make_stage(pool, 'ctor-wxyz', 'ctor', 'wxyz', gxx, ['-DGLM_FORCE_QUAT_DATA_WXYZ'], gen_ctors.PRELUDE['wxyz']),
+        make_stage(pool, 'swz-function-xyzwonly', 'swizzle', 'function-basic', gxx, ['-DGLM_FORCE_SWIZZLE', '-DGLM_FORCE_XYZW_ONLY'], gen_swizzle.PRELUDE['function'], thorough_only=True),
         make_stage(pool, 'ctor-xyzw', 'ctor', 'xyzw', gxx, ['-DGLM_FORCE_QUAT_DATA_XYZW'], gen_ctors.PRELUDE['xyzw'], thorough_only=True),
         make_stage(pool, 'ctor-sse2', 'ctor', 'simd', gxx, ['-DGLM_FORCE_INTRINSICS', '-msse2'], gen_ctors.PRELUDE['simd'], thorough_only=True),
     ]
